@@ -43,7 +43,8 @@ class SolveGroupSwizzlerPartsel(object):
             # Perform an ordered randomization
             ordered_s = set()
             for ro_l in rs.rand_order_l:
-                swizzled_field |= self.swizzle_field_l(ro_l, rs, bound_m, btor)
+                # All fields of an ordering stage must be decided in that stage
+                swizzled_field |= self.swizzle_field_l(ro_l, rs, bound_m, btor, len(ro_l))
                 ordered_s.update(ro_l)
             # Fields of this randset that no ordering statement mentions
             # are randomized last
@@ -60,7 +61,7 @@ class SolveGroupSwizzlerPartsel(object):
         if self.debug > 0:
             print("<-- swizzle_randvars")    
             
-    def swizzle_field_l(self, field_l, rs : RandSet, bound_m, btor):
+    def swizzle_field_l(self, field_l, rs : RandSet, bound_m, btor, max_swizzle=4):
         e = None
         if len(field_l) > 0:
             # Make a copy of the field list so we don't
@@ -68,7 +69,6 @@ class SolveGroupSwizzlerPartsel(object):
             field_l = field_l.copy()
             
             swizzle_node_l = []
-            max_swizzle = 4
 
             # Select up to `max_swizzle` fields to swizzle            
             for i in range(max_swizzle):
